@@ -159,6 +159,18 @@ func c12SpecialN() int { return len(c12Special) * len(c12ReqHosts) * len(c12Patt
 
 func c12Total() int { return c12SpecialN() + c12Generated() }
 
+var c12Pads = map[int]string{}
+
+// c12Pad: n times "u" (one string per length: every shard decodes every index)
+func c12Pad(n int) string {
+	p, ok := c12Pads[n]
+	if !ok {
+		p = strings.Repeat("u", n)
+		c12Pads[n] = p
+	}
+	return p
+}
+
 func c12Decode(idx int) c12Case {
 	cs := c12Case{Idx: idx}
 	if idx < c12SpecialN() {
@@ -200,7 +212,8 @@ func c12Decode(idx int) c12Case {
 	cs.AbsURL = d[8] == 1
 	if strings.HasPrefix(cs.UserKind, "pad-to-") {
 		n, _ := strconv.Atoi(strings.TrimPrefix(cs.UserKind, "pad-to-"))
-		cs.Origin.Userinfo = strings.Repeat("u", n-len(cs.Origin.Scheme)-len("://")-len("@")-len("example.com"))
+		cs.Origin.Userinfo = c12Pad(n - len(cs.Origin.Scheme) - len("://") - len("@") - len("example.com"))
+		return cs // (Raw is derived from the parts when the case runs)
 	}
 	cs.Raw = cs.Origin.String()
 	return cs
